@@ -24,6 +24,10 @@ CHECKS = {
    text="The real array_* transformation code is executed on a symbolic input value, mean, variance and bounds; the solver decides the push-forward identity F_target(T(x)) = Phi((x-mean)/sigma) (equivalently T = Q_target∘Phi) for log-normal, uniform, arcsine and U-quadratic, that the default bounds are exactly those fixed by the mean/variance-preserving moment conditions, the Zinn-Harvey identity Phi(±W)=erf(|z|/sqrt 2) with mirror-image connectivity reversal, exact sample moments of force-moments for n<=3 (thorough 4), array_boxcox∘BoxCox.normalize = id, and for discrete transforms that the output is the class value of the half-open threshold interval containing x (arithmetic midpoints, equal-probability thresholds, custom thresholds; 2-4 classes).",
    note="erf/erfinv/sin/exp/log/pow uninterpreted with sound axioms; Phi(z):=(1+erf(z/sqrt 2))/2; oracle = closed-form CDFs/quantiles and moments of the named distributions; for 'equal' thresholds with n>2 the numeric value of erfinv is checked concretely to 1e-12; Field.transform wrappers (transform/field.py) are not covered here.",
    technique="symbolic execution of the real transformation code + SMT push-forward identities", ref="DESIGN.md §4 C19"),
+ "C13": dict(engine="E1-symnp",
+   text="The real geometric conversions and lat-lon / temporal CovModel code are executed on two symbolic lat-lon points (any latitude in [-90,90], any longitude), symbolic geo_scale, time and time anisotropy: embedding on the sphere of radius geo_scale, chord^2 = 2R^2(1-cos central angle) = 4R^2·haversine argument, isometrize == latlon2pos(radius=geo_scale, time/anis[-1]), Yadrenko covariance/variogram == isotropic function of the chord 2R sin(zeta/2R), chordal<->great-circle inverse pair, pos2latlon∘latlon2pos = id on the open chart and latlon2pos∘pos2latlon∘latlon2pos = latlon2pos everywhere (poles, date line; staged through lemmas), fit_variogram lag conversion, and for metric space-time models (dim 2-4) time scaled by the last ratio only, never rotated into space.",
+   note="sin/cos/arcsin/arctan2/sqrt uninterpreted with principal-range, injectivity and polar-decomposition axioms; pi symbolic between 3.1415926 and 3.1415927; kriging rotation-invariance on the sphere and the haversine kernel are covered under C05/C08 when those checks are present.",
+   technique="symbolic execution of the real coordinate-conversion code + SMT with trig axioms and staged lemmas", ref="DESIGN.md §4 C13"),
 }
 
 PENDING_REASON = "check not built yet in this session (work in progress; see DESIGN.md §7 build order)"
